@@ -26,8 +26,32 @@ func (p Persist) Load(ctx context.Context, name string) ([]byte, error) {
 func (p Persist) Store(ctx context.Context, name string, bytes []byte) error {
 	path := filepath.Join(p.basepath, name)
 	_, err := os.Stat(path)
-	if os.IsNotExist(err) {
-		return os.WriteFile(filepath.Join(p.basepath, name), bytes, 0644)
+	if err == nil {
+		// Files only ever appear under their final name complete (see below).
+		return nil
+	}
+	if !os.IsNotExist(err) {
+		return err
+	}
+	// Write to a temporary file in the same directory and rename it into
+	// place, so that a crash or a failed write never leaves a partial node
+	// under the node's name (where it would be served by Load and never
+	// rewritten, because the name exists).
+	f, err := os.CreateTemp(p.basepath, name+".tmp*")
+	if err != nil {
+		return err
+	}
+	tmp := f.Name()
+	_, err = f.Write(bytes)
+	if cerr := f.Close(); err == nil {
+		err = cerr
+	}
+	if err == nil {
+		err = os.Rename(tmp, path)
+	}
+	if err != nil {
+		os.Remove(tmp)
+		return err
 	}
 	return nil
 }
